@@ -24,6 +24,7 @@ func propC06() Property {
 			{ID: "C06-R3", Desc: "reverse-route symmetry", Min: 1, Run: c06R3},
 			{ID: "C06-R4", Desc: "identity/time check bindings", Min: 4, Run: c06R4},
 			{ID: "C06-R5", Desc: "Reject quotes and routing", Min: 3, Run: c06R5},
+			{ID: "C06-R9", Desc: "location ids reversed from FIX.4.1 on; an empty CompID is named as a malformed field", Min: 3, Run: c06R9},
 			{ID: "C06-R8", Desc: "a validation rule is skipped only under the setting that disables it (= C15-R7)", Min: 3, Run: c15R7},
 			{ID: "C06-R7", Desc: "RefSeqNum is set on every path to the Reject's send", Min: 1, Run: c06R7},
 			{ID: "C06-R6", Desc: "constructed rejects are used; version gates include FIXT.1.1 with FIX.4.4", Min: 10, Run: c06R6},
